@@ -405,7 +405,8 @@ def prove_chain(src_root, ex: Explorer):
             ctx.assume(clean(comp))
             return (a[2], Sym(comp, 'str'))
         it.hooks[f'{NAMING}:{sname}.apply'] = c_apply
-        it.hooks[f'{NAMING}:DuplicateNamingStrategy.should_be_applied'] = lambda it2, f, a, k: applied
+        should_args = []
+        it.hooks[f'{NAMING}:DuplicateNamingStrategy.should_be_applied'] = lambda it2, f, a, k: (should_args.append((a[1], a[2])), applied)[1]
         it.hooks[f'{NAMING}:NamingStrategy.should_be_applied'] = lambda it2, f, a, k: applied
         state = {}
 
@@ -416,6 +417,9 @@ def prove_chain(src_root, ex: Explorer):
             state['path'], state['filename'] = env.vars['path'], env.vars['filename']
         it.loop_specs[(f'{NAMING}:chain_strategies', 0)] = loop
         it.call(func(it, NAMING, 'chain_strategies'), [[s], sstr(ctx, 'remote_path'), Sym(D, 'str')], {})
+        if sname == 'NumberDuplicateStrategy':
+            ctx.prove('C09.chain.checks-current-location', len(should_args) == 1 and z3.eq(z3str(should_args[0][0]), z3str(path)) and should_args[0][1] is fn,
+                      'should_be_applied must be asked about the directory and name chosen SO FAR, not about the initial download directory')
         p2, f2 = z3str(state['path']), z3str(state['filename'])
         # definitional instance of REL: appending "/" + plain component keeps it
         ctx.assume(z3.Implies(z3.And(REL(R), clean(comp)), REL(z3.Concat(R, z3.StringVal('/'), comp))))
@@ -464,7 +468,7 @@ def prove_chain(src_root, ex: Explorer):
             state['path'], state['filename'] = env.vars['path'], env.vars['filename']
         it.loop_specs[(f'{NAMING}:chain_strategies', 0)] = loop
         ctx.assume(z3.Implies(EX(z3str(it.call(it.natives['os.path.join'], [path, fn], {}))), EX(path.t)))       # A-fs
-        it.call(func(it, NAMING, 'chain_strategies'), [[s], sstr(ctx, 'remote_path'), path], {})
+        it.call(func(it, NAMING, 'chain_strategies'), [[s], sstr(ctx, 'remote_path'), sstr(ctx, 'initial_download_directory')], {})
         p2, f2 = z3str(state['path']), z3str(state['filename'])
         full = z3str(it.call(it.natives['os.path.join'], [Sym(p2, 'str'), Sym(f2, 'str')], {}))
         ctx.prove(f'C09.chain.not-exists[last={sname}]', z3.Not(EX(full)),
